@@ -19,6 +19,9 @@ import (
 
 	"github.com/99designs/gqlgen/graphql/handler/transport"
 	"github.com/gorilla/websocket"
+	"github.com/vektah/gqlparser/v2/ast"
+	"github.com/vektah/gqlparser/v2/parser"
+	"github.com/vektah/gqlparser/v2/validator"
 )
 
 type wsOp struct {
@@ -27,6 +30,11 @@ type wsOp struct {
 	Payload string `json:"payload"` // JSON text of the payload of the subscribe / start message
 	Ticks   int    `json:"ticks,omitempty"`
 	Gate    string `json:"gate,omitempty"`
+	// what the operation's resolver reports through transport.AddSubscriptionError (the holder model's events):
+	// a one-shot operation reports Errs while it is executed; a subscription reports Errs[0] when payload number
+	// FailAt has been delivered (0 = when the stream ends by itself)
+	Errs   []string `json:"errs,omitempty"`
+	FailAt int      `json:"failAt,omitempty"`
 }
 
 type wsEv struct {
@@ -151,6 +159,9 @@ func wsVocabulary(proto string) wsNames {
 }
 
 const wsSentinel = "zz-end"
+const wsFencePrefix = "zz-f" // fence operations of the harness (not operations of the session)
+
+func wsOwn(id string) bool { return id == wsSentinel || strings.HasPrefix(id, wsFencePrefix) }
 
 type wsEvResult struct {
 	ev     wsEv
@@ -188,7 +199,22 @@ func playWs(h http.Handler, s *wsSession, only int) (res []wsEvResult, tail []ws
 			return "subscription never reached its gate"
 		}
 	}
-	isComplete := func(f wsFrame) bool { return f.typ == "complete" }
+	// the end of an operation's stream is `complete`, or `error` alone (errors reported through
+	// AddSubscriptionError), or `error complete` (refused / panicking operations). After an `error` a fence operation
+	// tells whether a `complete` belongs to it: the transport sends both from one goroutine (the read loop, or the
+	// operation's deferred function under the connection's lock), so it is on the wire before any frame of an
+	// operation started after the `error` was received
+	nfence := 0
+	awaitEnd := func() []wsFrame {
+		fr := cl.await(func(f wsFrame) bool { return f.typ == "complete" || f.typ == "error" })
+		if len(fr) > 0 && fr[len(fr)-1].typ == "error" {
+			nfence++
+			fid := fmt.Sprintf("%s%d", wsFencePrefix, nfence)
+			cl.sendRaw(v.start, fid, `{"query":"{ k }"}`)
+			fr = append(fr, cl.await(func(f wsFrame) bool { return f.typ == "complete" && f.id == fid })...)
+		}
+		return fr
+	}
 	for _, e := range s.Evs {
 		if only >= 0 && (e.Op != only || e.Kind == "ping" || e.Kind == "pong" || e.Kind == "stopx") {
 			continue
@@ -204,7 +230,7 @@ func playWs(h http.Handler, s *wsSession, only int) (res []wsEvResult, tail []ws
 				r.note = arrive(e.Op)
 			} else {
 				cl.sendRaw(v.start, o.ID, o.Payload)
-				r.frames = cl.await(isComplete)
+				r.frames = awaitEnd()
 			}
 		case "step":
 			if !running[e.Op] || left[e.Op] == 0 {
@@ -215,7 +241,7 @@ func playWs(h http.Handler, s *wsSession, only int) (res []wsEvResult, tail []ws
 			gs[e.Op].release <- struct{}{}
 			if left[e.Op] == 0 {
 				running[e.Op] = false
-				r.frames = cl.await(isComplete)
+				r.frames = awaitEnd()
 			} else {
 				r.frames = cl.await(func(f wsFrame) bool { return f.typ == v.data })
 				r.note = arrive(e.Op)
@@ -224,7 +250,7 @@ func playWs(h http.Handler, s *wsSession, only int) (res []wsEvResult, tail []ws
 			cl.sendRaw(v.stop, s.Ops[e.Op].ID, "")
 			if running[e.Op] {
 				running[e.Op] = false
-				r.frames = cl.await(isComplete)
+				r.frames = awaitEnd()
 			}
 		case "stopx":
 			cl.sendRaw(v.stop, "nobody", "")
@@ -287,10 +313,9 @@ func runWsSession(sid int, cfgName, kind string, s *wsSession) {
 	}
 	for _, f := range all {
 		switch {
+		case opLevel(f.typ) && wsOwn(f.id):
 		case opLevel(f.typ) && ids[f.id]:
-			if f.id != wsSentinel {
-				byID[f.id] = append(byID[f.id], f.text)
-			}
+			byID[f.id] = append(byID[f.id], f.text)
 		case opLevel(f.typ):
 			problems = append(problems, "frame that belongs to no operation of the session: "+f.text)
 		case f.typ == "pong":
@@ -323,7 +348,7 @@ func runWsSession(sid int, cfgName, kind string, s *wsSession) {
 			fs = append(fs, r.frames...)
 		}
 		for _, f := range append(fs, otail...) {
-			if f.id != wsSentinel {
+			if !wsOwn(f.id) {
 				want[o.ID] = append(want[o.ID], f.text)
 			}
 		}
@@ -344,12 +369,15 @@ func runWsSession(sid int, cfgName, kind string, s *wsSession) {
 	if bad := srv.qc.changedDocs(); len(bad) > 0 {
 		problems = append(problems, "cached document changed: "+strings.Join(bad, " | "))
 	}
+	if d := srv.schemaDrift(); d != "" {
+		problems = append(problems, "the server's schema changed: "+d)
+	}
 	// the events as the read-loop model (Model/WsLoop.lean) sees them, and the ids the implementation put on
 	// the frames each operation emitted
 	var mev, obs []string
 	emitted := func(r wsEvResult) {
 		for _, f := range r.frames {
-			if opLevel(f.typ) {
+			if opLevel(f.typ) && !wsOwn(f.id) {
 				mev = append(mev, fmt.Sprintf("e:%d", r.ev.Op))
 				obs = append(obs, hx(f.id))
 			}
@@ -371,6 +399,73 @@ func runWsSession(sid int, cfgName, kind string, s *wsSession) {
 			mev = append(mev, "r:-:0")
 		}
 	}
+	// the events as the error-holder model (Model/WsHolder.lean) sees them - an operation that the transport
+	// executes starts, reports errors through AddSubscriptionError, ends - and how each such operation's stream
+	// really ended (`complete`, or `error` with which messages)
+	var hev, hobs []string
+	{
+		delivered, running := map[int]int{}, map[int]bool{}
+		ended := func(r wsEvResult, k int) {
+			hev = append(hev, fmt.Sprintf("f:%d", k))
+			var last *wsFrame
+			for i := range r.frames {
+				if f := &r.frames[i]; opLevel(f.typ) && !wsOwn(f.id) && f.id == s.Ops[k].ID {
+					last = f
+				}
+			}
+			switch {
+			case last == nil:
+				hobs = append(hobs, fmt.Sprintf("%d:none", k))
+			case last.typ == "error":
+				hobs = append(hobs, fmt.Sprintf("%d:e:%s", k, hx(strings.Join(errorMessages(last.text), "\x00"))))
+			default:
+				hobs = append(hobs, fmt.Sprintf("%d:c", k))
+			}
+		}
+		report := func(k int, m string) { hev = append(hev, fmt.Sprintf("a:%d:%s", k, hx(m))) }
+		for _, r := range res {
+			k := r.ev.Op
+			if r.ev.Kind != "start" && r.ev.Kind != "step" && r.ev.Kind != "stop" {
+				continue
+			}
+			o := s.Ops[k]
+			if !wsExecs(o.Payload) {
+				continue
+			}
+			switch r.ev.Kind {
+			case "start":
+				hev = append(hev, fmt.Sprintf("s:%d", k))
+				if o.Kind == "sub" {
+					running[k] = true
+				} else {
+					for _, m := range o.Errs {
+						report(k, m)
+					}
+					ended(r, k)
+				}
+			case "step":
+				if r.note == "skipped" || !running[k] {
+					continue
+				}
+				delivered[k]++
+				if len(o.Errs) > 0 && o.FailAt == delivered[k] {
+					report(k, o.Errs[0])
+				}
+				if delivered[k] == o.Ticks {
+					if len(o.Errs) > 0 && o.FailAt == 0 {
+						report(k, o.Errs[0])
+					}
+					running[k] = false
+					ended(r, k)
+				}
+			case "stop":
+				if running[k] {
+					running[k] = false
+					ended(r, k)
+				}
+			}
+		}
+	}
 	verdict := "ok"
 	if len(problems) > 0 {
 		verdict = "DIFF"
@@ -388,9 +483,76 @@ func runWsSession(sid int, cfgName, kind string, s *wsSession) {
 		tr = append(tr, fmt.Sprintf("%s%s -> [%s]", r.ev.Kind, id, strings.Join(fs, " ")))
 	}
 	js, _ := json.Marshal(s)
-	// W sid cfg kind proto verdict | problems | session JSON | transcript | model events | observed ids
-	fmt.Fprintf(out, "W\t%d\t%s\t%s\t%s\t%s\t%s\t%s\t%s\t%s\t%s\n", sid, cfgName, kind, s.Proto, verdict, hx(strings.Join(problems, "\n")), hx(string(js)),
-		hx(strings.Join(tr, "\n")), strings.Join(mev, " "), strings.Join(obs, " "))
+	// W sid cfg kind proto verdict | problems | session JSON | transcript | model events | observed ids | holder-model events | observed ends
+	fmt.Fprintf(out, "W\t%d\t%s\t%s\t%s\t%s\t%s\t%s\t%s\t%s\t%s\t%s\t%s\n", sid, cfgName, kind, s.Proto, verdict, hx(strings.Join(problems, "\n")), hx(string(js)),
+		hx(strings.Join(tr, "\n")), strings.Join(mev, " "), strings.Join(obs, " "), dash(strings.Join(hev, " ")), dash(strings.Join(hobs, " ")))
+}
+
+func dash(s string) string {
+	if s == "" {
+		return "-"
+	}
+	return s
+}
+
+// errorMessages: the messages of an `error` frame's payload (a list of errors; one error object in graphql-ws)
+func errorMessages(frameText string) []string {
+	var m struct {
+		Payload json.RawMessage `json:"payload"`
+	}
+	json.Unmarshal([]byte(frameText), &m)
+	var list []struct {
+		Message string `json:"message"`
+	}
+	if json.Unmarshal(m.Payload, &list) != nil {
+		var one struct {
+			Message string `json:"message"`
+		}
+		json.Unmarshal(m.Payload, &one)
+		return []string{one.Message}
+	}
+	var out []string
+	for _, e := range list {
+		out = append(out, e.Message)
+	}
+	return out
+}
+
+// wsExecs: does the transport execute the operation of this payload (it starts the operation's goroutine), or
+// does it refuse it from the read loop (undecodable payload, parse / validation error, unknown operation name,
+// variables that cannot be coerced)? Decided with the libraries the executor uses, on the harness's own schema.
+var wsExecsMemo = map[string]bool{}
+
+func wsExecs(payload string) bool {
+	if v, ok := wsExecsMemo[payload]; ok {
+		return v
+	}
+	v := func() bool {
+		var p struct {
+			Query         string         `json:"query"`
+			OperationName string         `json:"operationName"`
+			Variables     map[string]any `json:"variables"`
+		}
+		d := json.NewDecoder(strings.NewReader(payload))
+		d.UseNumber()
+		if d.Decode(&p) != nil {
+			return false
+		}
+		doc, err := parser.ParseQuery(&ast.Source{Input: p.Query})
+		if err != nil || len(validator.Validate(schema, doc)) != 0 {
+			return false
+		}
+		op := doc.Operations.ForName(p.OperationName)
+		if op == nil {
+			return false
+		}
+		if _, err := validator.VariableValues(schema, op, p.Variables); err != nil {
+			return false
+		}
+		return true
+	}()
+	wsExecsMemo[payload] = v
+	return v
 }
 
 // ---------------------------------------------------------------- sessions
@@ -414,6 +576,26 @@ func subOp(id string, k, ticks int, opName string) wsOp {
 }
 
 func oneOp(id, payload string) wsOp { return wsOp{ID: id, Kind: "oneshot", Payload: payload} }
+
+// operations whose resolver uses the transport's per-operation side channel, transport.AddSubscriptionError
+// (round 4): a one-shot query that reports msg n times while it is executed ...
+func boomOp(id, msg string, n int) wsOp {
+	o := oneOp(id, wsPayload("query Boom($m: String, $n: Int) { boom(m: $m, n: $n) k }", "", []kvp{{"m", canon(msg)}, {"n", fmt.Sprint(n)}}))
+	for i := 0; i < n; i++ {
+		o.Errs = append(o.Errs, msg)
+	}
+	return o
+}
+
+const qSubF = "subscription T($n: Int, $g: String, $fail: String, $failAt: Int) { tick(n: $n, g: $g, fail: $fail, failAt: $failAt) }"
+
+// ... and a gated subscription that reports msg when payload number failAt has been delivered and goes on
+// (failAt = 0: when its stream ends)
+func failSub(id string, k, ticks int, msg string, failAt int) wsOp {
+	g := fmt.Sprintf("g%d", k)
+	return wsOp{ID: id, Kind: "sub", Ticks: ticks, Gate: g, Errs: []string{msg}, FailAt: failAt,
+		Payload: wsPayload(qSubF, "", []kvp{{"n", fmt.Sprint(ticks)}, {"g", canon(g)}, {"fail", canon(msg)}, {"failAt", fmt.Sprint(failAt)}})}
+}
 
 var wsOneshots = []string{
 	wsPayload(qPlain, "", nil),
@@ -482,6 +664,37 @@ func directedWsSessions() []*wsSession {
 			&wsSession{Proto: proto, Ops: []wsOp{subOp("s", 0, 2, "T"), oneOp("m1", wsPayload(mt[2], "", []kvp{{"a", `true`}})), oneOp("m2", wsPayload(mt[2], "", []kvp{{"b", `true`}}))},
 				Evs: []wsEv{ev("start", 0), ev("start", 1), ev("step", 0), ev("start", 2), ev("step", 0)}})
 	}
+	// ---- round 4: the per-operation side channel. An operation that reported an error through
+	// transport.AddSubscriptionError ends with `error`; whatever runs after it or beside it on the connection ends
+	// as it does alone
+	for _, proto := range []string{"graphql-transport-ws", "graphql-ws"} {
+		ev := func(k string, op int) wsEv { return wsEv{k, op} }
+		// every kind of operation after one that reported an error, and before the next one that does
+		for oi, other := range wsOneshots {
+			ss = append(ss, &wsSession{Proto: proto, Ops: []wsOp{boomOp("b", fmt.Sprintf("upstream %d went away", oi), 1), oneOp(fmt.Sprintf("q%d", oi), other), boomOp("b2", "second", 1)},
+				Evs: []wsEv{ev("start", 0), ev("start", 1), ev("start", 2)}})
+		}
+		ss = append(ss,
+			// errors do not accumulate from operation to operation, ids may be used again
+			&wsSession{Proto: proto, Ops: []wsOp{boomOp("x", "one", 1), oneOp("x", wsOneshots[0]), boomOp("x", "two", 2), oneOp("y", wsOneshots[1]), boomOp("y", "three", 1)},
+				Evs: []wsEv{ev("start", 0), ev("start", 1), ev("start", 2), ev("start", 3), ev("start", 4)}},
+			// a subscription is running while another operation reports: it ends as it does alone
+			&wsSession{Proto: proto, Ops: []wsOp{subOp("s", 0, 2, "T"), boomOp("b", "while s runs", 1)},
+				Evs: []wsEv{ev("start", 0), ev("step", 0), ev("start", 1), ev("step", 0)}},
+			&wsSession{Proto: proto, Ops: []wsOp{subOp("s", 0, 2, "U"), boomOp("b", "before s delivers", 2)},
+				Evs: []wsEv{ev("start", 0), ev("start", 1), ev("stop", 0)}},
+			// a subscription reported an error and is still running: operations that end meanwhile end as alone
+			&wsSession{Proto: proto, Ops: []wsOp{failSub("f", 0, 3, "f lost its upstream", 1), oneOp("q", wsOneshots[0]), subOp("s", 2, 1, "T"), oneOp("m", wsOneshots[8])},
+				Evs: []wsEv{ev("start", 0), ev("step", 0), ev("start", 1), ev("start", 2), ev("step", 2), ev("step", 0), ev("start", 3), ev("step", 0)}},
+			// two reporting subscriptions beside each other: each ends with its own message only
+			&wsSession{Proto: proto, Ops: []wsOp{failSub("f1", 0, 2, "first", 1), failSub("f2", 1, 2, "second", 0)},
+				Evs: []wsEv{ev("start", 0), ev("start", 1), ev("step", 0), ev("step", 1), ev("step", 1), ev("step", 0)}},
+			&wsSession{Proto: proto, Ops: []wsOp{failSub("f1", 0, 2, "first", 2), failSub("f2", 1, 1, "second", 1), subOp("s", 2, 1, "T")},
+				Evs: []wsEv{ev("start", 0), ev("start", 1), ev("start", 2), ev("step", 1), ev("step", 0), ev("step", 2), ev("step", 0)}},
+			// the id of an operation that ended with `error` is free again; a stopped reporting subscription
+			&wsSession{Proto: proto, Ops: []wsOp{failSub("s", 0, 1, "gone", 0), subOp("s", 1, 1, "T"), failSub("t", 2, 3, "stopped", 1), oneOp("q", wsOneshots[3])},
+				Evs: []wsEv{ev("start", 0), ev("step", 0), ev("start", 1), ev("step", 1), ev("start", 2), ev("step", 2), ev("stop", 2), ev("start", 3)}})
+	}
 	for _, s := range ss {
 		wsPre(s)
 	}
@@ -509,7 +722,11 @@ func randomWsSession(g *gen) *wsSession {
 		case x < 22 && len(live) < 3:
 			k := len(s.Ops)
 			t := 1 + g.pick(3)
-			s.Ops = append(s.Ops, subOp(newID(), k, t, []string{"T", "U"}[g.pick(2)]))
+			if g.chance(35) { // a subscription whose resolver reports an error at some payload / at its end
+				s.Ops = append(s.Ops, failSub(newID(), k, t, fmt.Sprintf("sub %d failed", k), g.pick(t+1)))
+			} else {
+				s.Ops = append(s.Ops, subOp(newID(), k, t, []string{"T", "U"}[g.pick(2)]))
+			}
 			s.Evs = append(s.Evs, wsEv{"start", k})
 			live, left[k] = append(live, k), t
 		case x < 45:
@@ -520,7 +737,11 @@ func randomWsSession(g *gen) *wsSession {
 				p = wsPayload(mt[g.pick(len(mt))], "", varSets[len(varSets)-1-g.pick(5)])
 			}
 			id := newID()
-			s.Ops = append(s.Ops, oneOp(id, p))
+			if g.chance(25) { // a query whose resolver reports through the same side channel
+				s.Ops = append(s.Ops, boomOp(id, fmt.Sprintf("op %d failed", k), 1+g.pick(2)))
+			} else {
+				s.Ops = append(s.Ops, oneOp(id, p))
+			}
 			s.Evs = append(s.Evs, wsEv{"start", k})
 			free = append(free, id)
 		case x < 75 && len(live) > 0:
